@@ -205,6 +205,20 @@ class StartupRun:
                         add_teardown_callback(cb, True)
                     self.log("regTd", i, a["id"])
                     await self.probe_nested(i)      # entering/leaving a context here has no checkpoint
+                elif k == "startTask":
+                    from asphalt.core import start_service_task
+
+                    async def service(*, task_status: Any, id_: int = a["id"], d: int = a["d"]) -> None:
+                        await anyio.sleep(d * TICK)             # coming up takes a while …
+                        task_status.started()
+                        try:
+                            await anyio.sleep_forever()
+                        finally:
+                            self.log("tdRun", id_)              # … stopped by its finalizer when the context is torn down
+
+                    await start_service_task(service, f"svc{a['id']}")
+                    self.log("tick", i)
+                    self.log("regTd", i, a["id"])
                 elif k == "fail":
                     self.log("failed", i, a["e"])
                     raise EXN[a["e"]]()
@@ -402,6 +416,9 @@ def expand_prog(prog: list[dict[str, Any]], for_model: bool = False) -> list[dic
                         # one call registering the factory under two types
                         base = {k: v for k, v in a.items() if k != "ty2"}
                         acts += [base, {**base, "ty": a["ty2"]}]
+                    elif a["a"] == "startTask":
+                        # for the start-up discipline: time passes, then a teardown callback is registered
+                        acts += [{"a": "tick", "d": a["d"]}, {"a": "regTd", "id": a["id"]}]
                     elif for_model and a["a"] == "tick" and not isinstance(a["d"], int):
                         acts.append({**a, "d": int(a["d"]) + 1})      # half ticks: the model has whole ones only
                     elif for_model and a["a"] in ("awaitGiveUp", "awaitCatch"):
